@@ -183,14 +183,14 @@ def gen_fluxcase(rng, enc=None, container=None, sides=None, small=False):
     return fc
 
 
-def gen_hostile_flux(rng, sides=1):
+def gen_hostile_flux(rng, sides=1, none_weight=1):
     """A small flux image description with legal-but-unusual recordings (deleted-data and other data marks)
     and/or cell damage, for the fail-cleanly and option-independence checks.
     Returns (fluxcase, damage dict with 'side:track' keys)."""
     fc = gen_fluxcase(rng, small=True, sides=sides)
     marks = {}
     damage = {}
-    what = rng.weighted([(3, 'marks'), (3, 'damage'), (2, 'both'), (1, 'none')])
+    what = rng.weighted([(3, 'marks'), (3, 'damage'), (2, 'both'), (none_weight, 'none')])
     if what in ('marks', 'both'):
         for _ in range(rng.weighted([(4, 1), (2, 2), (1, rng.randint(3, 12))])):
             side = rng.below(fc['sides'])
